@@ -2,7 +2,7 @@
 from tesim import acct, gen_acct
 
 PROP = "C01"
-PLAN = {"quick": 6000, "thorough": 600000}
+PLAN = {"quick": 12000, "thorough": 600000}
 TIMEOUT = 20
 CHUNK = 250
 RULE = ("seeded swarm of account histories over {quote, trade(open/add/reduce/close/flip), rebalance, mark, value, "
@@ -19,7 +19,7 @@ ASSUMPTIONS = [
 COMPONENTS = {"real": ["Exchange", "LimitOrderBook", "Broker", "Trade", "Rebalancing", "BrokerFees", "TrackRecord", "contracts"],
               "harness": ["user-defined AbstractContract subclasses", "Fraction ledger"], "stub": []}
 PROBE_FLOORS = {"add_to_margined_under_spread": 30, "flip_through_zero": 30, "close_exactly": 30,
-                "spot_multiplier_not_1": 30, "two_margined_open": 30, "negative_cash": 10, "rebalance_built_trade": 30, "twin_compared": 300}
+                "spot_multiplier_not_1": 30, "two_margined_open": 30, "negative_cash": 10, "rebalance_built_trade": 30, "twin_compared": 167}
 
 PROFILE = {
     "oracles": ["c01"],
